@@ -1,7 +1,10 @@
-// C02, stored-blob half: snapshots are written through the public API (create_track) on every schema; the raw BLOB
+// C02, stored-blob half: snapshots are written through the public API (create_track; update over another snapshot; the
+// single-field setters over another snapshot, in two orders) on every schema; the raw BLOB
 // columns of Track / PerformanceData are read by raw SQL on the captured connection and decoded with refcodec; the
 // decoded content must be the Engine layout the snapshot prescribes (predicted here, independently of the library's
 // convert_* helpers): slots, labels, offsets, the order of the colour channels, main cue, grid markers, rate / count / loudness.
+#include <algorithm>
+#include <functional>
 #include <optional>
 #include "c02_stored.hpp"
 
@@ -47,23 +50,43 @@ dj::track_snapshot variant(int v, bool v2, int n)
 }
 }  // namespace
 
+// how the snapshot reaches the database: 0 create_track(s); 1 create_track(other) then update(s); 2 / 3 create_track(other)
+// then the single-field setters of every blob-backed field, in forward / reverse order
+const char* path_name(int p) { return p == 0 ? "create_track" : p == 1 ? "update" : p == 2 ? "setters" : "setters (reverse order)"; }
+void write_by_path(World& w, int path, const dj::track_snapshot& s, int other_variant, std::optional<dj::track>& out)
+{
+    if (path == 0) { out = w.db.create_track(s); return; }
+    auto o = variant(other_variant, w.v2, 300 + other_variant);
+    o.relative_path = *s.relative_path + ".other";
+    out = w.db.create_track(o);
+    auto& t = *out;
+    if (path == 1) { t.update(s); return; }
+    std::vector<std::function<void()>> setters = {
+        [&] { t.set_sample_rate(s.sample_rate); },   [&] { t.set_sample_count(s.sample_count); }, [&] { t.set_average_loudness(s.average_loudness); },
+        [&] { t.set_key(s.key); },                   [&] { t.set_beatgrid(s.beatgrid); },         [&] { t.set_main_cue(s.main_cue); },
+        [&] { t.set_hot_cues(s.hot_cues); },         [&] { t.set_loops(s.loops); }};
+    if (path == 3) std::reverse(setters.begin(), setters.end());
+    for (auto& f : setters) f();
+}
+
 void run_stored(World& w, Agg& a)
 {
     const std::string sn = schema_name(w.schema);
     const std::string fam = w.v2 ? "v2" : "v1";
+    for (int path = 0; path < 4; ++path)
     for (int v = 0; v < 5; ++v)
     {
         a.count("evaluations");
         a.count("stored_evaluations");
-        const std::string cid = "stored:" + sn + ":" + std::to_string(v);
-        auto viol = [&](const std::string& inv, const std::string& what) { a.violation(fam + ".stored." + inv, "[" + sn + "] blob written by create_track (snapshot variant " + std::to_string(v) + "): " + what, cid); };
-        auto s = variant(v, w.v2, 100 + v);
+        const std::string cid = "stored:" + sn + ":" + std::to_string(v) + (path ? ":" + std::to_string(path) : "");
+        auto viol = [&](const std::string& inv, const std::string& what) { a.violation(fam + ".stored." + inv, "[" + sn + "] blob written by " + path_name(path) + " (snapshot variant " + std::to_string(v) + "): " + what, cid); };
+        auto s = variant(v, w.v2, 100 + v + 10 * path);
         std::optional<dj::track> created;
-        try { created = w.db.create_track(s); }
+        try { write_by_path(w, path, s, (v + 2) % 5, created); }
         catch (const std::exception& e)
         {
             // every value in these snapshots is inside the format's domain (labels of at most 255 bytes, 8 slots): nothing to compare
-            viol("write_refused", std::string("create_track refused a snapshot whose every field the format can hold: ") + e.what());
+            viol("write_refused", std::string(path_name(path)) + " refused a value the format can hold: " + e.what());
             continue;
         }
         dj::track t = *created;
